@@ -5,11 +5,17 @@
 //   model ... end                    build a model (harness/mjbuild.h)                -> ok nq nv nbody npoly | error ..
 //   state <nq> <nv> qpos.. qvel..    remember the initial state (decimal %.17g)       -> ok
 //   drift <h> <nsteps> <ncheck>      RK4 from the remembered state, energy flag on; energy and momenta at ncheck+1
-//                                    equally spaced checkpoints (nsteps % ncheck == 0)  -> {json}
+//                                    equally spaced checkpoints (nsteps % ncheck == 0)  -> {json}; "maxang" = largest
+//                                    rotational displacement of a sprung ball / free joint seen at any step
 //   keline                           mj_forward at the remembered state; prints the `ke` op line built from the
 //                                    engine's own arrays, preceded by the bits of energy[1]: "<e1> ke ..."
 //   ke <nv> rownnz*nv rowadr*nv <nM> colind*nM M*nM v*nv       (floats = 16 hex digits; same protocol as lean/Drivers/C08.lean)
 //                                    -> e <hex> | mv <hex>*nv | dense <hex>*(nv*nv)   using mju_mulSymVecSparse, mju_dot, mju_sym2dense
+//   epline                           mj_forward at the remembered state (energy flag on); prints the `ep` op line built from the
+//                                    engine's own arrays (same protocol as lean/Drivers/C08.lean), preceded by the bits of
+//                                    energy[0], nv and the bits of qfrc_spring: "<e0> <nv> <qfrc_spring*nv> ep ..."; the
+//                                    displacement vectors of ball / free joints come from the engine's mju_subQuat / mju_sub3 /
+//                                    mju_norm3.  "skip <why>" if the model is outside the modelled scope (sleep, flex, damping)
 //   gradpot <eps>                    central finite differences of energy[0] along every dof (mj_integratePos) at the
 //                                    remembered qpos with qvel = 0, and the generalized force qfrc_passive - qfrc_bias -> {json}
 #include <math.h>
@@ -156,6 +162,26 @@ static void dump_bodies(const char* key) {
   printf("],");
 }
 
+// largest rotational spring displacement (radians) over the ball / free joints that carry a spring: the spring potential
+// of a quaternion joint is a function of the SHORTEST rotation to the reference, which has a kink at pi (cut locus); a
+// trajectory that reaches it is outside the smooth regime in which a Runge-Kutta order can be observed
+static double spring_angle_max(void) {
+  double mx = 0;
+  for (int j = 0; j < m->njnt; j++) {
+    int type = m->jnt_type[j];
+    if (type != mjJNT_BALL && type != mjJNT_FREE) continue;
+    if (m->jnt_stiffness[j] == 0 && mju_isZero(m->jnt_stiffnesspoly + mjNPOLY * j, mjNPOLY)) continue;
+    int padr = m->jnt_qposadr[j] + (type == mjJNT_FREE ? 3 : 0);
+    double quat[4], dif[3];
+    mju_copy4(quat, d->qpos + padr);
+    mju_normalize4(quat);
+    mju_subQuat(dif, quat, m->qpos_spring + padr);
+    double a = mju_norm3(dif);
+    if (a > mx) mx = a;
+  }
+  return mx;
+}
+
 static void op_drift(double h, long nsteps, long ncheck) {
   load_state();
   m->opt.timestep = h;
@@ -165,13 +191,18 @@ static void op_drift(double h, long nsteps, long ncheck) {
   double* E0 = malloc(8 * (ncheck + 1)); double* E1 = malloc(8 * (ncheck + 1));
   double* P = malloc(8 * 3 * (ncheck + 1)); double* L = malloc(8 * 3 * (ncheck + 1)); double* C = malloc(8 * 3 * (ncheck + 1));
   printf("{");
+  double maxang = spring_angle_max();
   for (long c = 0; c <= ncheck; c++) {
     mj_forward(m, d);
     E0[c] = d->energy[0]; E1[c] = d->energy[1];
     momenta(P + 3 * c, L + 3 * c, C + 3 * c);
     if (c == 0) dump_bodies("bodies0");
     if (c == ncheck) { dump_bodies("bodies1"); break; }
-    for (long s = 0; s < per; s++) mj_step(m, d);
+    for (long s = 0; s < per; s++) {
+      mj_step(m, d);
+      double a = spring_angle_max();
+      if (a > maxang) maxang = a;
+    }
   }
   // independent evaluation of the kinetic energy at the final state: dense M from mj_fullM
   int nv = m->nv;
@@ -182,9 +213,86 @@ static void op_drift(double h, long nsteps, long ncheck) {
   put_nums("Epot", E0, ncheck + 1, 0); put_nums("Ekin", E1, ncheck + 1, 0);
   put_nums("P", P, 3 * (ncheck + 1), 0); put_nums("L", L, 3 * (ncheck + 1), 0); put_nums("com", C, 3 * (ncheck + 1), 0);
   printf("\"mass\":"); put_num(m->body_subtreemass[0]);
+  printf(",\"maxang\":"); put_num(maxang);
   printf(",\"nefc\":%d,\"ncon\":%d,\"time\":", d->nefc, d->ncon); put_num(d->time);
   printf(",\"warn\":%d}\n", d->warning[mjWARN_BADQACC].number + d->warning[mjWARN_BADQPOS].number + d->warning[mjWARN_BADQVEL].number);
   free(E0); free(E1); free(P); free(L); free(C); free(full);
+}
+
+static void put_radial(double re, const double dif[3]) {
+  printf(" "); put_hex(re);
+  printf(" "); put_hex(mju_norm3(dif));
+  for (int k = 0; k < 3; k++) { printf(" "); put_hex(dif[k]); }
+}
+
+static void op_epline(void) {
+  load_state();
+  m->opt.enableflags |= mjENBL_ENERGY;
+  mj_forward(m, d);
+  int nv = m->nv;
+  // scope of the Lean model
+  const char* why = NULL;
+  if (m->opt.enableflags & mjENBL_SLEEP) why = "sleep";
+  if (m->nflex) why = "flex";
+  for (int i = 0; i < m->ntendon && !why; i++)
+    if (m->tendon_damping[i] != 0 || !mju_isZero(m->tendon_dampingpoly + mjNPOLY * i, mjNPOLY)) why = "tendon damping";
+  for (int i = 0; i < m->nu && !why; i++)
+    if (m->actuator_damping[i] != 0 || !mju_isZero(m->actuator_dampingpoly + mjNPOLY * i, mjNPOLY)) why = "actuator damping";
+  if (mjNPOLY != 2) why = "mjNPOLY";
+  if (why) { printf("skip %s\n", why); return; }
+  put_hex(d->energy[0]);
+  printf(" %d", nv);
+  for (int i = 0; i < nv; i++) { printf(" "); put_hex(d->qfrc_spring[i]); }
+  printf(" ep %d %d", nv, (m->opt.disableflags & mjDSBL_GRAVITY) ? 0 : 1);
+  for (int k = 0; k < 3; k++) { printf(" "); put_hex(m->opt.gravity[k]); }
+  printf(" %d", (int)m->nbody - 1);
+  for (int b = 1; b < m->nbody; b++) {
+    printf(" "); put_hex(m->body_mass[b]);
+    for (int k = 0; k < 3; k++) { printf(" "); put_hex(d->xipos[3 * b + k]); }
+  }
+  printf(" %d %d", (m->opt.disableflags & mjDSBL_SPRING) ? 0 : 1, (int)m->njnt);
+  // joints in the order both engine loops visit them (bodies in order, joints of a body in order)
+  int seen = 0;
+  for (int b = 0; b < m->nbody; b++) {
+    for (int j = m->body_jntadr[b]; j < m->body_jntadr[b] + m->body_jntnum[b]; j++) {
+      seen++;
+      int padr = m->jnt_qposadr[j], dadr = m->jnt_dofadr[j], type = m->jnt_type[j];
+      printf(" %s %d", type == mjJNT_FREE ? "f" : type == mjJNT_BALL ? "b" : "s", dadr);
+      printf(" "); put_hex(m->jnt_stiffness[j]);
+      for (int k = 0; k < mjNPOLY; k++) { printf(" "); put_hex(m->jnt_stiffnesspoly[mjNPOLY * j + k]); }
+      if (type == mjJNT_FREE) {
+        double dif[3];
+        mju_sub3(dif, d->qpos + padr, m->qpos_spring + padr);
+        put_radial(mju_norm3(dif), dif);
+        padr += 3;
+      }
+      if (type == mjJNT_FREE || type == mjJNT_BALL) {
+        double dif[3], quat[4];
+        mju_copy4(quat, d->qpos + padr);
+        mju_normalize4(quat);
+        mju_subQuat(dif, quat, m->qpos_spring + padr);
+        // mj_energyPos takes the quaternion as it is in qpos, mj_springdamper a re-normalised copy
+        double dife[3];
+        mju_subQuat(dife, d->qpos + padr, m->qpos_spring + padr);
+        put_radial(mju_norm3(dife), dif);
+      } else {
+        printf(" "); put_hex(d->qpos[padr]); printf(" "); put_hex(m->qpos_spring[padr]);
+      }
+    }
+  }
+  if (seen != m->njnt) { printf(" joint-order-mismatch"); }
+  printf(" %d", (int)m->ntendon);
+  for (int i = 0; i < m->ntendon; i++) {
+    printf(" "); put_hex(m->tendon_stiffness[i]);
+    for (int k = 0; k < mjNPOLY; k++) { printf(" "); put_hex(m->tendon_stiffnesspoly[mjNPOLY * i + k]); }
+    printf(" "); put_hex(d->ten_length[i]);
+    printf(" "); put_hex(m->tendon_lengthspring[2 * i]); printf(" "); put_hex(m->tendon_lengthspring[2 * i + 1]);
+    printf(" %d", m->ten_J_rownnz[i]);
+    for (int k = m->ten_J_rowadr[i]; k < m->ten_J_rowadr[i] + m->ten_J_rownnz[i]; k++) {
+      printf(" %d ", m->ten_J_colind[k]); put_hex(d->ten_J[k]);
+    }
+  }
+  printf("\n");
 }
 
 static void op_gradpot(double eps) {
@@ -240,7 +348,7 @@ int main(void) {
         memcpy(s_qpos, m->qpos0, 8 * m->nq);
         printf("ok %d %d %d %d\n", (int)m->nq, (int)m->nv, (int)m->nbody, (int)mjNPOLY);
       }
-    } else if (strcmp(op, "state") && strcmp(op, "drift") && strcmp(op, "keline") && strcmp(op, "gradpot")) {
+    } else if (strcmp(op, "state") && strcmp(op, "drift") && strcmp(op, "keline") && strcmp(op, "gradpot") && strcmp(op, "epline")) {
       printf("bad-op\n");
     } else if (!m || !d) {
       printf("error no model\n");
@@ -252,6 +360,7 @@ int main(void) {
       double h = strtod(tok[1], NULL); long ns = atol(tok[2]), nc = atol(tok[3]);
       if (!(h > 0) || ns <= 0 || nc <= 0 || ns % nc) printf("bad-op\n"); else op_drift(h, ns, nc);
     } else if (!strcmp(op, "keline") && n == 1) op_keline();
+    else if (!strcmp(op, "epline") && n == 1) op_epline();
     else if (!strcmp(op, "gradpot") && n == 2) op_gradpot(strtod(tok[1], NULL));
     else printf("bad-op\n");
     jb_armed = 0;
